@@ -16,7 +16,7 @@ Oracles (none of them shares code with cherab):
   basis           t = (0,1,0); |p| = |n| = 1; p.t = n.t = n.p = 0; n = p x t; p parallel (not anti-parallel) to the
                   in-plane part of b_field; B.n = 0.
   field           Solov'ev: b_field == (-psi_Z/r, F/r, psi_R/r) of the analytic psi within SAFETY x the computed
-                  np.gradient + bicubic bound (vf/solovev_c12.py); bundled grids: orientation only (cos >= 0.9 against
+                  np.gradient + bicubic bound (vf/solovev_c12.py); bundled grids: orientation only (cos >= 0.8 against
                   central differences of the public psi interpolant where |B_pol| >= 0.3 max, >= 2 cells from the edge).
   vec2d / vec3d   map_vector2d has components (v_tor, v_pol, v_nor)(psi_n) along (t, p, n) inside, equals the outside
                   vector elsewhere; map_vector3d is that vector rotated by the toroidal angle of the point (own rotation).
@@ -37,7 +37,7 @@ RULE = ("one case = one equilibrium (bundled example, Generomak, or a synthetic 
         "the clamp decisive, LCFS polygon of 8..120 vertices scaled 0.9..1.06 about the axis) x one scalar profile and three "
         "velocity profiles (Python callables, Function1D algebra, Function1D interpolators, 2xN lists/arrays; either sign, "
         "amplitudes 1e-2..1e4) x outside value (default / 0 / +-x / vector) x ~90 points (uniform, near axis, within "
-        "3e-6..3e-2 of LCFS polygon edges and of psi_n = 1, private-flux / x-point region, grid nodes, outer cell ring, "
+        "3e-6..3e-2 of LCFS polygon edges and of psi_n = 1, private-flux / x-point region, grid nodes, outer cell ring, boundary lines and corners, "
         "inside LCFS) each with two toroidal angles; a case is non-trivial when inside-LCFS and outside-LCFS map "
         "comparisons and basis checks were all evaluated; distinct = distinct full case descriptors")
 LEVEL_TEXT = ("Exploration by runtime invariant monitoring over sampled fields: the real EFITEquilibrium objects are driven "
@@ -54,7 +54,7 @@ ASSUMPTIONS = ["2xN profile tables cover psi_n in [0, 1] (tables that do not are
                "synthetic grids are uniform (as EFIT grids are); bundled-grid field magnitudes are not judged (np.gradient "
                "discretisation up to 11 % of max), only orientation",
                "points where the in-plane field is exactly zero have no defined basis and are skipped (counted)"]
-QUICK = dict(cases=500, workers=2, timecap=45)
+QUICK = dict(cases=400, workers=2, timecap=35)
 THOROUGH = dict(cases=30000, workers=16, timecap=600)
 REQUIRED = {"psin_nonneg": 20000, "psin_clamp_decisive": 20, "psin_def": 20000, "psi_nodes": 1000, "psi_analytic": 5000,
             "lcfs_mask": 20000, "map2d_inside": 4000, "map2d_outside": 4000, "map3d": 8000, "map3d_phi": 2000,
@@ -62,9 +62,10 @@ REQUIRED = {"psin_nonneg": 20000, "psin_clamp_decisive": 20, "psin_def": 20000, 
             "vec2d_inside": 4000, "vec2d_outside": 4000, "vec3d": 8000, "pts_private_flux": 100,
             "pts_polygon_inside_psin_gt_1": 30}
 
-SAFETY = 5.0          # factor on the computed discretisation bounds (their constants are worst-case estimates)
+SAFETY = 8.0          # factor on the computed discretisation bounds (their constants are worst-case estimates)
 EDGE_EXCL = 1e-6      # undecidable band around LCFS polygon edges / psi_n = 1
 NPTS = 90
+COS_MIN = 0.8        # orientation only: np.gradient-vs-interpolant deviations reach 11 % of max|B_pol| (asin(0.11/0.3) = 21 deg)
 
 _CACHE = {}
 
@@ -220,6 +221,12 @@ def _gen_points(rng, G, n):
     Rr = np.where(side == 0, r[0] + u * (r[1] - r[0]), np.where(side == 1, r[-1] - u * (r[-1] - r[-2]), r[0] + w * (r[-1] - r[0])))
     Zz = np.where(side == 2, z[0] + u * (z[1] - z[0]), np.where(side == 3, z[-1] - u * (z[-1] - z[-2]), z[0] + w * (z[-1] - z[0])))
     add(Rr, Zz, "ring")
+    # exactly on the boundary lines / corners of the grid domain (toroidal angle 0 only: the 3-D radius must not round outwards)
+    for _ in range(max(1, k // 3)):
+        sd = int(rng.integers(0, 6))
+        rb = [r[0], r[-1], float(rng.uniform(r[0], r[-1])), float(rng.uniform(r[0], r[-1])), r[0], r[-1]][sd]
+        zb = [float(rng.uniform(z[0], z[-1])), float(rng.uniform(z[0], z[-1])), z[0], z[-1], z[-1], z[0]][sd]
+        out.append([float(rb), float(zb), "boundary"])
     # inside the LCFS: polygon points shrunk towards the axis
     m = n - len(out)
     i = rng.integers(0, nv, m)
@@ -230,6 +237,9 @@ def _gen_points(rng, G, n):
     for R, Z, lab in out:
         ph = []
         for _ in range(2):
+            if lab == "boundary":
+                ph.append(0.0)
+                continue
             ph.append(float(special[int(rng.integers(len(special)))]) if rng.random() < 0.2 else float(rng.uniform(-math.pi, math.pi)))
         pts.append([R, Z, ph[0], ph[1], lab])
     return pts
@@ -645,12 +655,12 @@ def _run(case, ctx):
             ex, ez = -gz / R[sel], gr / R[sel]
             cosang = (ex * B[sel, 0] + ez * B[sel, 2]) / (np.hypot(ex, ez) * bpol[sel] + 1e-300)
             ctx.mon("field_orientation", int(sel.sum()))
-            ctx.margin("field_orientation", float(np.max((1.0 - cosang) / 0.1)))
-            if (cosang < 0.9).any():
+            ctx.margin("field_orientation", float(np.max((1.0 - cosang) / (1.0 - COS_MIN))))
+            if (cosang < COS_MIN).any():
                 k = int(np.argmin(cosang))
                 ctx.viol("b_field:bundled:orientation-not-along-(-dpsi_dz,dpsi_dr)",
-                         "in-plane field is not oriented along (-dpsi/dz, dpsi/dr)/r of the public psi interpolant (cos < 0.9)",
-                         r=R[sel][k], z=Z[sel][k], cos=float(cosang[k]), eq=eqcls, n_bad=int((cosang < 0.9).sum()))
+                         "in-plane field is not oriented along (-dpsi/dz, dpsi/dr)/r of the public psi interpolant (cos < %.1f)" % COS_MIN,
+                         r=R[sel][k], z=Z[sel][k], cos=float(cosang[k]), eq=eqcls, n_bad=int((cosang < COS_MIN).sum()))
 
     # ---- velocity maps -------------------------------------------------------------------------
     vs = max(_profile_scale(vel[k_]) for k_ in ("tor", "pol", "nor")) + float(np.max(np.abs(vo)))
